@@ -237,7 +237,7 @@ func vqInfra(t *testing.T, format string, a ...interface{}) {
 	t.Fatal(msg)
 }
 
-func vqStart(t *testing.T) (*Client, func()) {
+func vqStart(t *testing.T) (*Client, *Service, func()) {
 	dir, err := os.MkdirTemp(os.Getenv("VERIF_SCRATCH"), "x04meta")
 	if err != nil {
 		t.Fatal(err)
@@ -270,12 +270,31 @@ func vqStart(t *testing.T) (*Client, func()) {
 			vqInfra(t, "%v", err)
 		}
 	}
-	return c, func() { c.Close(); s.Close(); ln.Close(); os.RemoveAll(dir) }
+	return c, s, func() { c.Close(); s.Close(); ln.Close(); os.RemoveAll(dir) }
 }
 
 func vqSpec(d0 int) *RetentionPolicySpec {
 	one, dur, sgd := 1, time.Duration(0), vqDur(d0)
 	return &RetentionPolicySpec{Name: "p", ReplicaN: &one, Duration: &dur, ShardGroupDuration: sgd}
+}
+
+func vqStoreIndex(svc *Service) uint64 {
+	svc.store.mu.RLock()
+	defer svc.store.mu.RUnlock()
+	return svc.store.data.Index
+}
+
+func vqAge(d *Data) {
+	for i := range d.Databases {
+		for j := range d.Databases[i].RetentionPolicies {
+			gs := d.Databases[i].RetentionPolicies[j].ShardGroups
+			for k := range gs {
+				if gs[k].Deleted() {
+					gs[k].DeletedAt = gs[k].DeletedAt.Add(-15 * 24 * time.Hour)
+				}
+			}
+		}
+	}
 }
 
 type vqOutcome struct {
@@ -298,7 +317,7 @@ func vqTwinPre(tw *Data, db string, now, cut time.Time) {
 	tw.CreateShardGroup(db, "p", g.EndTime)
 }
 
-func vqReplayOne(c *Client, db string, d0 int, beh []vqStep) (o vqOutcome) {
+func vqReplayOne(c *Client, svc *Service, db string, d0 int, beh []vqStep) (o vqOutcome) {
 	o.cover = map[string]int{}
 	fail := func(i int, sig, detail string) vqOutcome { o.sig, o.detail, o.step = sig, detail, i; return o }
 	if _, err := c.CreateDatabaseWithRetentionPolicy(db, vqSpec(d0)); err != nil {
@@ -320,7 +339,7 @@ func vqReplayOne(c *Client, db string, d0 int, beh []vqStep) (o vqOutcome) {
 		d := c.Data()
 		_, _, before := vqProject(&d, db, ids)
 		before = append([]ShardGroupInfo(nil), before...)
-		idx0 := d.Index
+		idx0 := vqStoreIndex(svc)
 		var err error
 		var rnow, rcut time.Time
 		switch st.A {
@@ -351,6 +370,27 @@ func vqReplayOne(c *Client, db string, d0 int, beh []vqStep) (o vqOutcome) {
 		case "Delete":
 			err = c.DeleteShardGroup(db, "p", vqRealID(ids, st.X))
 			tw.DeleteShardGroup(db, "p", vqRealID(twids, st.X))
+			present := false
+			for _, g := range before {
+				present = present || ids[g.ID] == st.X
+			}
+			if !present { // pruned earlier: the command is rejected, nothing changes
+				if err == nil || err.Error() != ErrShardGroupNotFound.Error() {
+					return fail(i, "api:delete-of-pruned-group", fmt.Sprintf("%v", err))
+				}
+				err = nil
+			}
+		case "Prune":
+			// two weeks pass: the deletion stamps (wall-clock values) are moved back in the store's value and in the twin,
+			// then the real command runs
+			svc.store.mu.Lock()
+			aged := svc.store.data.Clone()
+			vqAge(aged)
+			svc.store.data = aged
+			svc.store.mu.Unlock()
+			vqAge(tw)
+			err = c.PruneShardGroups()
+			tw.PruneShardGroups()
 		case "Tick":
 			now = st.X
 		default:
@@ -391,8 +431,10 @@ func vqReplayOne(c *Client, db string, d0 int, beh []vqStep) (o vqOutcome) {
 			if sig, det := vqPredicates(before, after, rnow, rcut, served0, served1); sig != "" {
 				return fail(i, sig, det)
 			}
-			if !created && d.Index != idx0 {
-				return fail(i, "x04b:noop-call-issued-command", fmt.Sprintf("index %d -> %d although nothing was created", idx0, d.Index))
+			// the store's index (every applied log entry, also a rejected command, moves it before the call returns); the
+			// client's cached index may lag behind after a rejected command and is not used here
+			if idx1 := vqStoreIndex(svc); !created && idx1 != idx0 {
+				return fail(i, "x04b:noop-call-issued-command", fmt.Sprintf("store index %d -> %d although nothing was created", idx0, idx1))
 			}
 			if z, _ := d.RetentionPolicy("zempty", "p"); z == nil || len(z.ShardGroups) != 0 {
 				return fail(i, "x04b:created-for-empty-policy", "the policy that never received a point has a group")
@@ -437,7 +479,7 @@ func TestVerifPrecreateReplay(t *testing.T) {
 	if err := vtrace.LoadJSON(os.Getenv("VERIF_IN"), &in); err != nil {
 		t.Skip("no VERIF_IN")
 	}
-	c, stop := vqStart(t)
+	c, svc, stop := vqStart(t)
 	defer stop()
 	if _, err := c.CreateDatabaseWithRetentionPolicy("zempty", vqSpec(8)); err != nil {
 		vqInfra(t, "%v", err)
@@ -446,7 +488,7 @@ func TestVerifPrecreateReplay(t *testing.T) {
 	seen := map[string]bool{}
 	steps, creating, bad := 0, 0, 0
 	for bi, beh := range in.Behaviours {
-		o := vqReplayOne(c, fmt.Sprintf("b%d", bi), in.D0, beh)
+		o := vqReplayOne(c, svc, fmt.Sprintf("b%d", bi), in.D0, beh)
 		steps += o.steps
 		creating += o.creating
 		for k, v := range o.cover {
@@ -497,7 +539,7 @@ func TestVerifPrecreateService(t *testing.T) {
 	if os.Getenv("VERIF_OUT") == "" {
 		t.Skip("no VERIF_OUT")
 	}
-	c, stop := vqStart(t)
+	c, _, stop := vqStart(t)
 	defer stop()
 	for _, db := range []string{"near", "far", "zempty"} {
 		if _, err := c.CreateDatabaseWithRetentionPolicy(db, vqSpec(4)); err != nil { // 1h groups
